@@ -486,6 +486,8 @@ def check_values_keep_dtype(prog, rep, rule, pub, entry=None):
             elif x[0] == 'call' and x[1] in ('numpy.array', 'numpy.asarray', 'numpy.asanyarray', 'numpy.ascontiguousarray') and len(x) >= 4 and x[2]:
                 kws = dict(x[3]) if not isinstance(x[3], dict) else x[3]
                 opnd, dt = x[2][0], kws.get('dtype', x[2][1] if len(x[2]) > 1 else None)
+            elif x[0] == 'call' and isinstance(x[1], tuple) and x[1][0] == 'method' and x[1][2] == 'type' and len(x[2]) == 1:
+                opnd, dt = x[2][0], x[1][1]                  # raster.dtype.type(value): the scalar constructor of the raster's dtype
             if opnd is None or dt is None:
                 continue
             r = raster_dtype(dt)
